@@ -163,7 +163,15 @@ func c18SeqUnit(unit string, env *fw.Env) *fw.Result {
 	}
 	// unit = index of the first symbol; enumerate all sequences of length <= depth starting with it
 	first := 0
-	fmt.Sscanf(unit, "seq/%d", &first)
+	sv := []uint64{1, 2, 2, 3}
+	if strings.HasPrefix(unit, "seqw/") {
+		// sequence numbers more than 2^63 apart (the log stamps up to 2^64 - 10^6)
+		fmt.Sscanf(unit, "seqw/%d", &first)
+		sv = []uint64{1, 2, 1<<63 + 5, ^uint64(0) - 2_000_000}
+		depth--
+	} else {
+		fmt.Sscanf(unit, "seq/%d", &first)
+	}
 	seen := map[string]bool{}
 	var rec func(prog []sym)
 	rec = func(prog []sym) {
@@ -174,7 +182,6 @@ func c18SeqUnit(unit string, env *fw.Env) *fw.Result {
 		// build
 		mt := memtable.NewMemTable()
 		var ops []mtOp
-		sv := []uint64{1, 2, 2, 3}
 		_ = seqs
 		for i, y := range prog {
 			o := mtOp{Key: keys[y.k], Seq: sv[y.s], Del: y.del, Val: fmt.Sprintf("v%d", i)}
@@ -405,13 +412,16 @@ func init() {
 	fw.Register(&fw.Check{
 		ID:    "C18",
 		Level: "model_checking",
-		Rule: "sequential: every insert/delete sequence up to the depth over 2 keys x sequence numbers {1,2,2,3} (non-monotone, repeated); a case is non-trivial when >=2 versions interact; " +
+		Rule: "sequential: every insert/delete sequence up to the depth over 2 keys x sequence numbers {1,2,2,3} (non-monotone, repeated), and one level shallower over {1, 2, 2^63+5, 2^64-2000001} (versions more than 2^63 apart); a case is non-trivial when >=2 versions interact; " +
 			"concurrent: every interleaving (atomics, locks as scheduling points) of 1 writer with 1-2 readers, unbounded with happens-before caching or deviation-bounded; non-trivial = executions with a cross-thread conflict on a shared object",
 		Assumptions: []string{"sequentially consistent interleavings of visible operations (locks, atomics); data-race freedom is C07's subject", "values outside the alphabet are not covered"},
 		Units: func(tier string) []string {
 			var us []string
 			for i := 0; i < 16; i++ {
 				us = append(us, fmt.Sprintf("seq/%d", i))
+			}
+			for i := 0; i < 16; i++ {
+				us = append(us, fmt.Sprintf("seqw/%d", i))
 			}
 			n := 4
 			us = append(us, shardUnits("mt-1w1r", -1, n)...)
@@ -426,7 +436,7 @@ func init() {
 		},
 		ExeFor: raceExe,
 		Run: func(unit string, env *fw.Env) *fw.Result {
-			if strings.HasPrefix(unit, "seq/") {
+			if strings.HasPrefix(unit, "seq/") || strings.HasPrefix(unit, "seqw/") {
 				return c18SeqUnit(unit, env)
 			}
 			if strings.HasPrefix(unit, "race/") {
